@@ -94,15 +94,16 @@ var BytesSliceFunc = function.New(&function.Spec{
 			)
 		}
 
-		end := offset + length
-
-		if end > len(*bufPtr) {
+		// (Comparing against the remaining length, rather than computing
+		// offset + length first, so that a huge length cannot overflow.)
+		if length > len(*bufPtr)-offset {
 			return cty.NilVal, fmt.Errorf(
 				"offset %d + length %d is greater than total buffer length %d",
 				offset, length, len(*bufPtr),
 			)
 		}
 
+		end := offset + length
 		return BytesVal((*bufPtr)[offset:end]), nil
 	},
 })
